@@ -40,6 +40,17 @@ func FromReaders(readers ...io.Reader) (*Dialogue, error) {
 	return dialogue, nil
 }
 
+// syntaxErrorListener collects the syntax errors reported by the lexer and the parser.
+type syntaxErrorListener struct {
+	*antlr.DefaultErrorListener
+	errors []error
+}
+
+// SyntaxError is called by the lexer or the parser when the input doesn't match the grammar.
+func (l *syntaxErrorListener) SyntaxError(_ antlr.Recognizer, _ interface{}, line, column int, msg string, _ antlr.RecognitionException) {
+	l.errors = append(l.errors, fmt.Errorf("line %d:%d %s", line, column, msg))
+}
+
 // FromReader creates a dialogue tree by reading the content of reader.
 func FromReader(reader io.Reader) (*Dialogue, error) {
 	scriptData, err := io.ReadAll(reader)
@@ -54,7 +65,24 @@ func FromReader(reader io.Reader) (*Dialogue, error) {
 		listener = &parserListener{}
 	)
 
-	antlr.ParseTreeWalkerDefault.Walk(listener, p.Dialogue())
+	// report syntax errors to the caller instead of printing them
+	errorListener := &syntaxErrorListener{}
+	lexer.RemoveErrorListeners()
+	lexer.AddErrorListener(errorListener)
+	p.RemoveErrorListeners()
+	p.AddErrorListener(errorListener)
+
+	dialogueContext := p.Dialogue()
+	if token := p.GetCurrentToken(); len(errorListener.errors) == 0 && token.GetTokenType() != antlr.TokenEOF {
+		// the dialogue rule stops silently at the first token that cannot start a node
+		// and would ignore the rest of the input
+		p.NotifyErrorListeners("extraneous input '"+token.GetText()+"' expecting <EOF>", token, nil)
+	}
+	if len(errorListener.errors) > 0 {
+		return nil, fmt.Errorf("failed to parse content: %w", errors.Join(errorListener.errors...))
+	}
+
+	antlr.ParseTreeWalkerDefault.Walk(listener, dialogueContext)
 
 	return listener.dialogue, nil
 }
